@@ -51,6 +51,8 @@ def rconst(rng):
         return B(rng.random() < 0.5)
     if r < 0.82:
         return {'t': 'err', 'v': rng.choice(['#N/A', '#DIV/0!', '#VALUE!'])}
+    if r < 0.86:
+        return {'t': 'date', 's': rng.choice([61, 36526, 43861, 43890, 43921, 44000, 44196]), 'fn': 0, 'fd': 1}
     return T(rng.choice(TEXTS))
 
 
@@ -116,6 +118,8 @@ class Gen:
                 return {'k': 'bool', 'v': c['v']}
             if c['t'] == 'err':
                 return {'k': 'err', 'v': c['v']}
+            if c['t'] == 'date':
+                return S.call('DATE', [S.num('2020'), S.num(str(rng.randint(1, 12))), S.num(str(rng.randint(1, 28)))])
             return S.strlit(xl.text_of(c))
         if r < 0.62:
             op = rng.choice(['+', '+', '-', '*', '&', '=', '<', '>=', '<>', '/'])
@@ -143,8 +147,55 @@ class Gen:
                 return S.call(rng.choice(['AND', 'OR']), [cond, S.bin_('>', self.any_ref(home), S.num('0'))])
             return S.call('NOT', [cond])
         f = rng.choice(['LEN', 'UPPER', 'ISNUMBER', 'ISTEXT', 'ISBLANK', 'ISERROR', 'LEFT', 'CONCAT', 'EXACT',
-                        'LOWER', 'TRIM', 'MID', 'RIGHT', 'ISNA', 'CHOOSE', 'COUNTIF', 'MATCH', 'NEG', 'PCT', 'ERRLIT', 'NA'])
+                        'LOWER', 'TRIM', 'MID', 'RIGHT', 'ISNA', 'CHOOSE', 'COUNTIF', 'MATCH', 'NEG', 'PCT', 'ERRLIT', 'NA',
+                        'DATE', 'YEAR', 'EDATE', 'DAYS', 'FIND', 'REPLACE', 'VLOOKUP', 'NPV', 'SLN', 'WEEKDAY',
+                        'ROUND', 'INT', 'ABS', 'MOD', 'CEILING', 'SIGN', 'POWER', 'SQRT', 'ISEVEN'])
         x = self.any_ref(home)
+        if f == 'DATE':
+            return S.call('DATE', [S.num(str(rng.choice([1900, 2020, 2024]))), rng.choice([S.num(str(rng.randint(-2, 14))), x]), S.num(str(rng.randint(-3, 33)))])
+        if f == 'YEAR':
+            d = S.call('DATE', [S.num('2020'), S.num(str(rng.randint(1, 12))), S.num(str(rng.randint(1, 28)))])
+            return S.call(rng.choice(['YEAR', 'MONTH', 'DAY']), [rng.choice([d, x])])
+        if f == 'EDATE':
+            d = S.call('DATE', [S.num('2020'), S.num(str(rng.randint(1, 12))), S.num(str(rng.choice([1, 15, 28, 30, 31])))])
+            return S.call(rng.choice(['EDATE', 'EOMONTH']), [rng.choice([d, d, x]), S.num(str(rng.randint(-13, 13)))])
+        if f == 'DAYS':
+            d = S.call('DATE', [S.num('2021'), S.num(str(rng.randint(1, 12))), S.num(str(rng.randint(1, 28)))])
+            return S.call('DAYS', [d, rng.choice([x, S.call('DATE', [S.num('2020'), S.num('3'), S.num('1')])])])
+        if f == 'WEEKDAY':
+            return S.call('WEEKDAY', [S.call('DATE', [S.num('2020'), S.num(str(rng.randint(1, 12))), S.num(str(rng.randint(1, 28)))]), S.num(str(rng.choice([1, 2, 3, 11, 17])))])
+        if f == 'FIND':
+            return S.call('FIND', [S.strlit(rng.choice(['a', 'b', 'ab', 'x'])), x] + ([S.num(str(rng.randint(1, 3)))] if rng.random() < 0.5 else []))
+        if f == 'REPLACE':
+            return S.call('REPLACE', [x, S.num(str(rng.randint(1, 3))), S.num(str(rng.randint(0, 2))), S.strlit('Z')])
+        if f == 'NPV':
+            return S.call('NPV', [S.num(rng.choice(['0', '0.5', '1'])), x, self.any_ref(home), S.num('60')])
+        if f == 'SLN':
+            return S.call('SLN', [S.num('1000'), x, S.num(str(rng.choice([1, 4, 10])))])
+        if f == 'VLOOKUP':
+            for _ in range(5):
+                a, sh = self.range_on(home)
+                if a['c2'] > a['c1'] and self.range_ok(a, sh, own):
+                    return S.call('VLOOKUP', [x, a, S.num(str(rng.randint(1, a['c2'] - a['c1'] + 1))), {'k': 'bool', 'v': False}])
+            return x
+        if f == 'ROUND':
+            return S.call(rng.choice(['ROUND', 'ROUNDUP', 'ROUNDDOWN', 'TRUNC']), [rng.choice([x, S.bin_('/', x, S.num('4')), S.bin_('*', x, S.num('1.25'))]), S.num(str(rng.randint(0, 2)))])
+        if f == 'INT':
+            return S.call(rng.choice(['INT', 'EVEN', 'TRUNC']), [rng.choice([x, S.bin_('/', x, S.num('4'))])])
+        if f == 'ABS':
+            return S.call('ABS', [S.bin_('-', x, self.any_ref(home))])
+        if f == 'MOD':
+            return S.call('MOD', [x, rng.choice([S.num('3'), S.neg(S.num('3')), S.num('0.5'), self.any_ref(home)])])
+        if f == 'CEILING':
+            return S.call(rng.choice(['CEILING', 'FLOOR']), [rng.choice([x, S.bin_('/', x, S.num('4'))]), S.num(rng.choice(['1', '0.5', '0.1', '5']))])
+        if f == 'SIGN':
+            return S.call('SIGN', [x])
+        if f == 'POWER':
+            return S.call('POWER', [x, S.num(str(rng.randint(0, 3)))])
+        if f == 'SQRT':
+            return S.call('SQRT', [S.bin_('*', x, x)])
+        if f == 'ISEVEN':
+            return S.call(rng.choice(['ISEVEN', 'ISODD']), [x])
         if f == 'NEG':
             return S.neg(x)
         if f == 'PCT':
